@@ -150,6 +150,15 @@ CHECKS = [
              "round trips and flat children == flattened n-d children; coord2index(index2coord(i)) == i (open grids); neighbourhoods "
              "wrap / stay inside; refinement never creates volume.",
      "design_ref": "DESIGN.md 4/C31"},
+    {"property_id": "C15", "engine": "B", "category": "other", "technique": TECH_B + "; the eager solver is executed as real Python on object arrays (vector primitives of its module replaced), all feasible paths explored; while loops unrolled to maxiter with an unwinding obligation",
+     "note": NOTE_B + " Bounded: dimension <= 2, maxiter <= 2 (3 thorough).",
+     "text": "Bounded symbolic verification of nifty.re _cg (eager) and _static_cg (compiled): for positive definite systems (n<=2), "
+             "every convergence criterion (resnorm, absdelta, tol/atol), miniter 0-2 and maxiter 1-2, on every eager path the compiled "
+             "variant returns the same x, info and nit; info == 0 implies the residual criterion for the recomputed residual; info != 0 "
+             "only at the iteration limit; the quadratic energy never increases. With negative curvature along the first direction "
+             "(_raise_nonposdef=False) both variants strictly decrease the energy with a step along steepest descent; with "
+             "_raise_nonposdef=True eager raises and compiled reports -1.",
+     "design_ref": "DESIGN.md 4/C15"},
 ]
 
 ALL = [f"C{i:02d}" for i in range(1, 37)]
